@@ -30,9 +30,10 @@ def main():
     # 1. demo fails with the change
     rc1, o1 = sh(run_demo, cwd=wt)
     # 2. demo passes without it
-    sh("git stash push -- " + " ".join(changed), cwd=wt)
+    # NOTE: never git stash here - refs/stash is shared by all worktrees of the repository
+    sh("git checkout -- " + " ".join(changed), cwd=wt)
     rc2, o2 = sh(run_demo, cwd=wt)
-    sh("git stash pop", cwd=wt)
+    sh("git apply " + os.path.join(out, "patch.diff"), cwd=wt)
     meta["demo_with_change"] = "FAIL" if rc1 != 0 else "PASS"
     meta["demo_without_change"] = "FAIL" if rc2 != 0 else "PASS"
     # 3. build + existing tests of touched packages and their dependants (demo skipped)
